@@ -571,6 +571,12 @@ def __Solver_2(simu: "_Simu", problemType: "ProblemType"):
 
     dofs_Dirichlet = simu.Bc_dofs_Dirichlet(problemType)
     values_Dirichlet = simu.Bc_values_Dirichlet(problemType)
+    # a dof entered several times holds the sum of its values (same convention as the
+    # elimination solver); one multiplier per constrained dof keeps the bordered system regular
+    dofs_Dirichlet, inverse = np.unique(dofs_Dirichlet, return_inverse=True)
+    values_Dirichlet = np.bincount(
+        inverse, weights=values_Dirichlet, minlength=dofs_Dirichlet.size
+    )
 
     list_Bc_Lagrange = simu.Bc_Lagrange
 
